@@ -121,7 +121,7 @@ func (a *HostileAgent) Ops(w *World, calm bool) []AgentOp {
 			case 2:
 				o["data"] = map[string]any{"k": map[string]any{"deeper": []any{}}}
 			case 3:
-				o["data"] = map[string]any{"k": nil, "list": []any{}}
+				o["data"] = map[string]any{"list": []any{}}
 			case 4:
 				o["data"] = []any{}
 			}
